@@ -2,7 +2,7 @@
    Statements only; every proof is `exact <lemma>`.  The statements are about every schedule
    (label list) of the supervisor model, any number and mix of runnables. *)
 From Coq Require Import List Bool Arith.
-From GS Require Import LTS Supervisor SupAccept SupProps SupInv SupGate SupResult SupPending.
+From GS Require Import LTS Supervisor SupAccept SupProps SupInv SupTrig SupGate SupResult SupPending.
 Import ListNotations.
 
 (* No later runnable's Run is invoked until every Stateable runnable registered before it has
@@ -23,16 +23,31 @@ Theorem C03_abort : forall c s ls s',
   past_startup s -> run (step c) s ls = Some s' -> launched s' = launched s.
 Proof. exact sup_c03_abort. Qed.
 
-(* ... and Run() then returns exactly the error that ended the gate, which is an error some
-   runnable's Run really returned or the start-up timeout (see also C04). *)
+(* ... and the result of Run() is an error some runnable's Run really returned or the start-up timeout
+   (provenance on traces; see also C04) ... *)
 Theorem C03_abort_result : forall c ls s,
   run (step c) (init c) ls = Some s -> c04_holdsb c (obs_trace obs ls) = true.
 Proof. exact sup_c04_result. Qed.
+
+(* ... more precisely Run() returns THAT error: when a readiness wait ends with a failure taken from the error
+   queue (gate_fail_label j l: the select took errorChan - LGateErr j -, or the runnable reported ready / the
+   context was cancelled and a failure was already queued - LGateDecide j, LGateCtx j), the error taken is the
+   head e of the queue, some runnable's Run really returned it (not a cancellation), Run() has fixed exactly e as
+   its result, no further runnable is started on any continuation, and whenever Run() has returned it returned e.
+   (For the start-up timeout: C03_startup_timeout_aborts.) *)
+Theorem C03_abort_returns_that_error : forall c s j l e q s1 ls s2,
+  reachable_sup c s -> gate_fail_label j l -> errq s = e :: q -> step c s l = Some s1 ->
+  run (step c) s1 ls = Some s2 ->
+  main s1 = MExit (ResErr e) /\ errq s1 = q /\ In e (real_error_ids (rev (hist s))) /\
+  launched s2 = launched s /\ main_res (main s2) = Some (ResErr e) /\
+  (forall r, main s2 = MReturned r -> r = ResErr e).
+Proof. exact sup_c03_abort_returns_that_error. Qed.
 
 Print Assumptions C03_gate.
 Print Assumptions C03_once.
 Print Assumptions C03_abort.
 Print Assumptions C03_abort_result.
+Print Assumptions C03_abort_returns_that_error.
 
 (* non-vacuity: a concrete schedule in which a gate opens and the next runnable starts *)
 Definition c03_cfg : config :=
@@ -42,10 +57,34 @@ Definition c03_cfg : config :=
      startup_may_fire := false; shutdown_may_fire := false |}.
 Example C03_ex_schedule :
   exists s, run (step c03_cfg) (init c03_cfg)
-              [LLaunch 0; LRunStore 0; LRunCall 0; LPoll 0 false; LPoll 0 true; LGateDecide 0; LLaunch 1; LRunCall 1] = Some s
-            /\ obs_trace obs [LLaunch 0; LRunStore 0; LRunCall 0; LPoll 0 false; LPoll 0 true; LGateDecide 0; LLaunch 1; LRunCall 1]
-               = [ERunCall 0; EPoll 0 false; EPoll 0 true; ERunCall 1].
+              [LRunEnter; LRunEntered; LLaunch 0; LRunStore 0; LRunCall 0; LPoll 0 false; LPoll 0 true; LGateDecide 0; LLaunch 1; LRunCall 1] = Some s
+            /\ obs_trace obs [LRunEnter; LRunEntered; LLaunch 0; LRunStore 0; LRunCall 0; LPoll 0 false; LPoll 0 true; LGateDecide 0; LLaunch 1; LRunCall 1]
+               = [ERunEnter; ERunCall 0; EPoll 0 false; EPoll 0 true; ERunCall 1].
 Proof. eexists. split; vm_compute; reflexivity. Qed.
+(* non-vacuity of C03_abort_returns_that_error: two failures are queued (7 before 8) while Run() is inside a slow
+   IsRunning() of runnable 2's gate; the gate takes the HEAD, 7; Run() returns 7 *)
+Definition c03_two_cfg : config :=
+  {| specs := [ {| stateable := false; reloadable := false; rsender := false; ssender := false;
+                   stop_style := StopNonBlocking; run_exit := ExitFree; held_sub := false |};
+                {| stateable := false; reloadable := false; rsender := false; ssender := false;
+                   stop_style := StopNonBlocking; run_exit := ExitFree; held_sub := false |};
+                {| stateable := true; reloadable := false; rsender := false; ssender := false;
+                   stop_style := StopNonBlocking; run_exit := ExitOnSignal; held_sub := false |} ];
+     startup_may_fire := false; shutdown_may_fire := false |}.
+Definition c03_two_pre : list label :=
+  [LRunEnter; LRunEntered; LLaunch 0; LRunCall 0; LLaunch 1; LRunCall 1; LLaunch 2; LRunStore 2; LRunCall 2; LPollBegin 2;
+   LRunRet 0 (Some (7, false)); LErrSend 0; LRunRet 1 (Some (8, false)); LErrSend 1; LPoll 2 false].
+Definition c03_two_post : list label :=
+  [LMainShutdown; LStopCall 2; LRunRet 2 None; LStopRet 2; LStopCall 1; LStopRet 1; LStopCall 0; LStopRet 0; LSdCancel;
+   LStmExit; LSdWgDone; LMainReturn (ResErr 7)].
+Example C03_ex_that_error :
+  exists s s1 s2, run (step c03_two_cfg) (init c03_two_cfg) c03_two_pre = Some s /\ errq s = [7; 8] /\
+                  gate_fail_label 2 (LGateErr 2) /\ step c03_two_cfg s (LGateErr 2) = Some s1 /\
+                  run (step c03_two_cfg) s1 c03_two_post = Some s2 /\ main s2 = MReturned (ResErr 7).
+Proof.
+  eexists. eexists. eexists. split; [vm_compute; reflexivity|]. split; [vm_compute; reflexivity|].
+  split; [now left|]. split; [vm_compute; reflexivity|]. split; vm_compute; reflexivity.
+Qed.
 (* ... and the monitor rejects a trace in which the second Run starts before readiness *)
 Example C03_ex_rejects : c03_gate c03_cfg [ERunCall 0; EPoll 0 false; ERunCall 1] = false.
 Proof. vm_compute. reflexivity. Qed.
@@ -76,13 +115,42 @@ Theorem C03_pending_quiescent : forall c s,
   (forall i, ~ waiting (rn_at s i)) /\ (decided s \/ (errq s <> [] /\ at_gate s)).
 Proof. exact sup_c03_pending_quiescent. Qed.
 
+(* The start-up timeout: one timer per readiness wait (armed when the wait begins; the model is untimed: the step
+   LGateTimeout j is enabled from then on whenever Run() is not inside a slow IsRunning() call - the real-time side,
+   that the deadline is NOT re-armed by every poll, is checked by the timed harness family gatetimed).  Once it has
+   fired at gate j, no further runnable is started on any continuation and Run() returns the start-up timeout error. *)
+Theorem C03_startup_timeout_aborts : forall c s j s1 ls s2,
+  step c s (LGateTimeout j) = Some s1 -> run (step c) s1 ls = Some s2 ->
+  main s = MGate j /\ startup_may_fire c = true /\ su_fired (aux s1) = true /\
+  launched s2 = launched s /\ main_res (main s2) = Some ResTimeout /\
+  (forall r, main s2 = MReturned r -> r = ResTimeout).
+Proof. exact sup_c03_startup_timeout_aborts. Qed.
+
 Print Assumptions C03_pending.
 Print Assumptions C03_pending_gate.
 Print Assumptions C03_pending_quiescent.
+Print Assumptions C03_startup_timeout_aborts.
+
+(* non-vacuity: the deadline fires while runnable 0 is not ready; runnable 1 is never started; Run() returns the
+   start-up timeout error after stopping runnable 0 *)
+Definition c03_to_cfg : config :=
+  {| specs := specs c03_cfg; startup_may_fire := true; shutdown_may_fire := false |}.
+Definition c03_to_pre : list label := [LRunEnter; LRunEntered; LLaunch 0; LRunStore 0; LRunCall 0; LPoll 0 false].
+Definition c03_to_post : list label :=
+  [LMainShutdown; LStopCall 0; LRunRet 0 None; LStopRet 0; LSdCancel; LStmExit; LSdWgDone; LMainReturn ResTimeout].
+Example C03_ex_startup_timeout :
+  exists s s1 s2, run (step c03_to_cfg) (init c03_to_cfg) c03_to_pre = Some s /\
+                  step c03_to_cfg s (LGateTimeout 0) = Some s1 /\
+                  run (step c03_to_cfg) s1 c03_to_post = Some s2 /\
+                  main s2 = MReturned ResTimeout /\ launched s2 = 1 /\ rn_at s2 1 = RnNot.
+Proof.
+  eexists. eexists. eexists. split; [vm_compute; reflexivity|]. split; [vm_compute; reflexivity|].
+  split; [vm_compute; reflexivity|]. repeat split; vm_compute; reflexivity.
+Qed.
 
 (* non-vacuity: runnable 0 became ready but failed before the gate looked: the gate does not open *)
 Definition c03_pend_sched : list label :=
-  [LLaunch 0; LRunStore 0; LRunCall 0; LMonSub 0; LMonRecv 0; LPollBegin 0; LRunRet 0 (Some (7, false)); LErrSend 0; LQuiet;
+  [LRunEnter; LRunEntered; LLaunch 0; LRunStore 0; LRunCall 0; LMonSub 0; LMonRecv 0; LPollBegin 0; LRunRet 0 (Some (7, false)); LErrSend 0; LQuiet;
    LPoll 0 true].
 Example C03_ex_pending_gate :
   exists s s', run (step pend_cfg) (init pend_cfg) c03_pend_sched = Some s /\
